@@ -1047,7 +1047,52 @@ def r11_always_returns_is_a_must_analysis(ctx):
         ctx.bad("always-returns|sequence|%s" % ",".join(sorted({st["rv"]["op"] for st in ors}) or ["none"]), g.where(), "the verdict for a sequence of statements is not `some statement always returns, starting from false` (%s, initial %s)" % ([st["rv"]["op"] for st in ors], inits))
 
 
-RULES = [("C09-R1", r1a_typing_tables), ("C09-R1b", r1b_accepted_is_evaluable), ("C09-R1c", r1c_inferred_types), ("C09-R1d", r1d_inferred_type_is_sound), ("C09-R2", r2_rule_presence), ("C09-R3", r3_context_per_function), ("C09-R4", r4_declared_type_follows_latest_declaration), ("C09-R5", r5_every_child_is_checked), ("C09-R6", r6_scope_of_a_declaration), ("C09-R7", r7_fixpoints_run_to_the_end), ("C09-R8", r8_static_tables_are_the_documented_ones), ("C09-R9", r9_return_types_are_inferred_in_the_function_s_own_scope), ("C09-R10", r10_static_types_stay_true_under_assignment), ("C09-R11", r11_always_returns_is_a_must_analysis)]
+def r12_static_scope_searches_go_innermost_first(ctx):
+    """Shared with C04-R11: a checker routine that walks the variable scopes outermost-first (type widening after `x get ..`)
+    touches the shadowed outer variable; the visible inner one keeps its stale type and a valid use of the new type is
+    rejected."""
+    from .c04 import r11_static_scope_searches_go_innermost_first
+    r11_static_scope_searches_go_innermost_first(ctx)
+
+
+def r13_placeholder_names_use_the_identifier_alphabet(ctx):
+    """A `{name}` placeholder is a variable use and is checked like one - if the parser recognises it.  The parser reads the
+    name with byte tests of its own; they have to accept what the scanner accepts in an identifier (a letter or underscore
+    first, then letters, digits, underscores), or a placeholder such as `{row2}` falls through to literal text: an undeclared
+    name inside it is never diagnosed, and a declared one is printed as `{row2}`."""
+    fn = ctx.lib.fns.get("syntax::parser::Parser::parse_template_segments")
+    if fn is None:
+        ctx.bad("placeholder|anchor", "", "parse_template_segments not found")
+        return
+    ctx.touch(fn)
+    bodies = [fn] + list(ctx.lib.closures_of(fn.id))
+    first, rest = set(), set()
+    seen_tests = []
+    for b in bodies:
+        for c in b.calls():
+            short = (c.callee or "").split("::")[-1]
+            if short in ("is_ascii_alphabetic", "is_ascii_alphanumeric", "is_ascii_digit"):
+                seen_tests.append((b, c, short))
+    # the first-character test comes first in the text, the continuation test is the one inside the scanning loop
+    seen_tests.sort(key=lambda t: (t[0].blocks[t[1].block]["at"]["line"]))
+    if len(seen_tests) < 2:
+        ctx.bad("placeholder|tests|%d" % len(seen_tests), fn.where(), "expected a first-character test and a continuation test for placeholder names, found %d" % len(seen_tests))
+        return
+    cont = seen_tests[1:]
+    classes = set()
+    for b, c, short in cont:
+        classes |= {"alpha", "digit"} if short == "is_ascii_alphanumeric" else ({"alpha"} if short == "is_ascii_alphabetic" else {"digit"})
+    under = any(st["rv"]["k"] == "bin" and st["rv"]["op"] in ("Eq", "Ne") and 95 in ((st["rv"]["a"].get("int") if isinstance(st["rv"]["a"], dict) else None), (st["rv"]["b"].get("int") if isinstance(st["rv"]["b"], dict) else None)) for b in bodies for blk in b.live for st in b.blocks[blk]["s"]) or any(b.blocks[S]["t"]["k"] == "switch" and b.switch_info(S)["kind"] == "bin" and 95 in ((b.switch_info(S)["a"].get("int") if isinstance(b.switch_info(S)["a"], dict) else None), (b.switch_info(S)["b"].get("int") if isinstance(b.switch_info(S)["b"], dict) else None)) for b in bodies for S in b.live)
+    if under:
+        classes.add("underscore")
+    missing = {"alpha", "digit", "underscore"} - classes
+    if not missing:
+        ctx.ok("placeholder|continuation-alphabet", fn.where(cont[0][1].block) if cont[0][0] is fn else fn.where(), "letters, digits and underscore continue a placeholder name")
+    else:
+        ctx.bad("placeholder|continuation-alphabet|%s-missing" % "+".join(sorted(missing)), fn.where(), "a placeholder name stops at a %s although the scanner accepts it in an identifier: `{row2}` is taken for literal text, so the variable use inside it is neither resolved nor checked" % "/".join(sorted(missing)))
+
+
+RULES = [("C09-R1", r1a_typing_tables), ("C09-R1b", r1b_accepted_is_evaluable), ("C09-R1c", r1c_inferred_types), ("C09-R1d", r1d_inferred_type_is_sound), ("C09-R2", r2_rule_presence), ("C09-R3", r3_context_per_function), ("C09-R4", r4_declared_type_follows_latest_declaration), ("C09-R5", r5_every_child_is_checked), ("C09-R6", r6_scope_of_a_declaration), ("C09-R7", r7_fixpoints_run_to_the_end), ("C09-R8", r8_static_tables_are_the_documented_ones), ("C09-R9", r9_return_types_are_inferred_in_the_function_s_own_scope), ("C09-R10", r10_static_types_stay_true_under_assignment), ("C09-R11", r11_always_returns_is_a_must_analysis), ("C09-R12", r12_static_scope_searches_go_innermost_first), ("C09-R13", r13_placeholder_names_use_the_identifier_alphabet)]
 
 EXPLANATION = (
     "R1: the accept/reject arms of check_expr are evaluated arm-by-arm (first-match semantics over name-resolved HIR patterns) "
